@@ -606,12 +606,18 @@ static int send_chunk_or_dataless(int dns_fd, int userid, struct query *q)
 	write_dns(dns_fd, q, pkt, datalen + 2, users[userid].downenc);
 
 	if (q->id2 != 0) {
+		char name[QUERY_NAME_SIZE];
+
 		q->id = q->id2;
 		q->fromlen = q->fromlen2;
 		memcpy(&(q->from), &(q->from2), q->fromlen2);
 		if (debug >= 1)
 			fprintf(stderr, "OUT  again to last duplicate\n");
+		/* Echo the duplicate's own spelling of the name */
+		memcpy(name, q->name, sizeof(name));
+		memcpy(q->name, q->name2, sizeof(q->name));
 		write_dns(dns_fd, q, pkt, datalen + 2, users[userid].downenc);
+		memcpy(q->name, name, sizeof(q->name));
 	}
 
 	save_to_qmem_pingordata(userid, q);
@@ -1217,7 +1223,7 @@ handle_null_request(int tun_fd, int dns_fd, struct dnsfd *dns_fds, struct query 
 		   like to re-try early and often (with _different_ .id!)  */
 		if (users[userid].q.id != 0 &&
 		    q->type == users[userid].q.type &&
-		    !strcmp(q->name, users[userid].q.name) &&
+		    !strcasecmp(q->name, users[userid].q.name) &&
 		    users[userid].lazy) {
 			/* We have this ping already, and it's waiting to be
 			   answered. Always keep the last duplicate, since the
@@ -1232,12 +1238,13 @@ handle_null_request(int tun_fd, int dns_fd, struct dnsfd *dns_fds, struct query 
 			users[userid].q.id2 = q->id;
 			users[userid].q.fromlen2 = q->fromlen;
 			memcpy(&(users[userid].q.from2), &(q->from), q->fromlen);
+			memcpy(users[userid].q.name2, q->name, sizeof(q->name));
 			return;
 		}
 
 		if (users[userid].q_sendrealsoon.id != 0 &&
 		    q->type == users[userid].q_sendrealsoon.type &&
-		    !strcmp(q->name, users[userid].q_sendrealsoon.name)) {
+		    !strcasecmp(q->name, users[userid].q_sendrealsoon.name)) {
 			/* Outer select loop will send answer immediately,
 			   to both queries. */
 			if (debug >= 2) {
@@ -1248,6 +1255,7 @@ handle_null_request(int tun_fd, int dns_fd, struct dnsfd *dns_fds, struct query 
 			users[userid].q_sendrealsoon.fromlen2 = q->fromlen;
 			memcpy(&(users[userid].q_sendrealsoon.from2),
 			       &(q->from), q->fromlen);
+			memcpy(users[userid].q_sendrealsoon.name2, q->name, sizeof(q->name));
 			return;
 		}
 
@@ -1345,7 +1353,7 @@ handle_null_request(int tun_fd, int dns_fd, struct dnsfd *dns_fds, struct query 
 		   like to re-try early and often (with _different_ .id!)  */
 		if (users[userid].q.id != 0 &&
 		    q->type == users[userid].q.type &&
-		    !strcmp(q->name, users[userid].q.name) &&
+		    !strcasecmp(q->name, users[userid].q.name) &&
 		    users[userid].lazy) {
 			/* We have this packet already, and it's waiting to be
 			   answered. Always keep the last duplicate, since the
@@ -1360,12 +1368,13 @@ handle_null_request(int tun_fd, int dns_fd, struct dnsfd *dns_fds, struct query 
 			users[userid].q.id2 = q->id;
 			users[userid].q.fromlen2 = q->fromlen;
 			memcpy(&(users[userid].q.from2), &(q->from), q->fromlen);
+			memcpy(users[userid].q.name2, q->name, sizeof(q->name));
 			return;
 		}
 
 		if (users[userid].q_sendrealsoon.id != 0 &&
 		    q->type == users[userid].q_sendrealsoon.type &&
-		    !strcmp(q->name, users[userid].q_sendrealsoon.name)) {
+		    !strcasecmp(q->name, users[userid].q_sendrealsoon.name)) {
 			/* Outer select loop will send answer immediately,
 			   to both queries. */
 			if (debug >= 2) {
@@ -1376,6 +1385,7 @@ handle_null_request(int tun_fd, int dns_fd, struct dnsfd *dns_fds, struct query 
 			users[userid].q_sendrealsoon.fromlen2 = q->fromlen;
 			memcpy(&(users[userid].q_sendrealsoon.from2),
 			       &(q->from), q->fromlen);
+			memcpy(users[userid].q_sendrealsoon.name2, q->name, sizeof(q->name));
 			return;
 		}
 
